@@ -44,6 +44,7 @@ type c18Counters struct {
 	mu                                                          sync.Mutex
 	behaviours, steps, restores, restoresOK, restoresFailed     int
 	judged, notJudged, held, backups, raceWrites, cuts, reopens int
+	srcReopens                                                  int
 	classes                                                     map[string]int
 	sigs                                                        map[string]int
 	infra                                                       []string
@@ -60,20 +61,21 @@ type c18Run struct {
 	bi    int
 	index string
 
-	src, dst *c18kit.Node
-	gate     *c18kit.TarGate
-	bkDone   chan error
-	stream   []byte
-	cls      string
-	cut      string
-	tombShip bool
-	inflight bool
-	failed   bool // a mismatch was reported: the rest of the scenario is not judged
-	stopped  bool
+	src, dst  *c18kit.Node
+	gate      *c18kit.TarGate
+	bkDone    chan error
+	stream    []byte
+	cls       string
+	cut       string
+	tombShip  bool
+	inflight  bool
+	layoutOff bool // the real file layout differs from the model's (note): streams are not compared entry by entry
+	failed    bool // a mismatch was reported: the rest of the scenario is not judged
+	stopped   bool
 }
 
-func (r *c18Run) replayObj(step int) map[string]interface{} {
-	return map[string]interface{}{"test": "store", "behaviour": r.b, "index": r.index, "step": step}
+func (r *c18Run) replayObj(step int, sig string) map[string]interface{} {
+	return map[string]interface{}{"test": "store", "behaviour": r.b, "index": r.index, "step": step, "sig": sig, "class": r.cls}
 }
 
 func (r *c18Run) mismatch(sig, detail string, step int) {
@@ -85,7 +87,7 @@ func (r *c18Run) mismatch(sig, detail string, step int) {
 	if n > r.in.MaxSigs {
 		return
 	}
-	vtrace.Mismatch(sig, fmt.Sprintf("behaviour %d step %d (%s) index %s: %s", r.bi, step, r.b[step].A, r.index, detail), r.replayObj(step))
+	vtrace.Mismatch(sig, fmt.Sprintf("behaviour %d step %d (%s) index %s class %s: %s", r.bi, step, r.b[step].A, r.index, r.cls, detail), r.replayObj(step, sig))
 }
 
 func (r *c18Run) infra(step int, format string, a ...interface{}) {
@@ -169,7 +171,7 @@ func (r *c18Run) checkSource(i int, layout bool) bool {
 	if !got.Equal(want) {
 		sig := "source:" + r.b[i].A + ":content"
 		if st.Pc != "prep" {
-			sig = "source-changed:" + r.b[i].A + ":" + r.cls
+			sig = "source-changed:" + r.b[i].A
 		}
 		r.mismatch(sig, fmt.Sprintf("source reads %s, model %s", got, want), i)
 		return false
@@ -180,10 +182,11 @@ func (r *c18Run) checkSource(i int, layout bool) bool {
 			r.infra(i, "layout: %v", err)
 			return false
 		}
-		if d != "" {
-			r.failed = true
-			vtrace.Mismatch("note:layout:"+r.b[i].A, fmt.Sprintf("behaviour %d step %d: %s", r.bi, i, d), r.replayObj(i))
-			return false
+		if d != "" && !r.layoutOff {
+			// the file layout left the model's physical refinement: recorded; from here on only what the property speaks
+			// about is judged (reads of source and copy), not which files a stream holds or where a cut falls
+			r.layoutOff = true
+			vtrace.Mismatch("note:layout:"+r.b[i].A, fmt.Sprintf("behaviour %d step %d: %s", r.bi, i, d), r.replayObj(i, "note:layout"))
 		}
 	}
 	return true
@@ -253,6 +256,7 @@ func (r *c18Run) step(i int) {
 		if s.V > 0 {
 			since = c18kit.ClockTime(s.V)
 		}
+		r.src.Wake(c18Shard)
 		r.gate = c18kit.NewTarGate()
 		done := make(chan error, 1)
 		r.bkDone = done
@@ -271,7 +275,7 @@ func (r *c18Run) step(i int) {
 				return
 			}
 			if berr != nil {
-				r.mismatch("backup:"+r.cls+":error", fmt.Sprintf("BackupShard: %v", berr), i)
+				r.mismatch("backup:error", fmt.Sprintf("BackupShard: %v", berr), i)
 				return
 			}
 			r.infra(i, "backup returned nil without writing the end-of-archive marker through the gate")
@@ -280,8 +284,8 @@ func (r *c18Run) step(i int) {
 		r.c.add(func() { r.c.backups++ })
 		r.checkSource(i, !r.inflight)
 	case "BackupStream":
-		if r.cut == "backup-refused" {
-			return
+		if r.cut == "backup-refused" || r.bkDone == nil {
+			return // no stream, or the real stream already ended (fewer entries than the model's)
 		}
 		r.gate.Step()
 		_, fin, berr, wd := r.waitGate(i)
@@ -291,7 +295,7 @@ func (r *c18Run) step(i int) {
 		}
 		if fin {
 			if berr != nil {
-				r.mismatch("backup:"+r.cls+":error", fmt.Sprintf("BackupShard: %v", berr), i)
+				r.mismatch("backup:error", fmt.Sprintf("BackupShard: %v", berr), i)
 				return
 			}
 			// the real stream has fewer entries than the model: judged at BackupEnd
@@ -308,24 +312,30 @@ func (r *c18Run) step(i int) {
 			return
 		}
 		if berr != nil {
-			r.mismatch("backup:"+r.cls+":error", fmt.Sprintf("BackupShard: %v", berr), i)
+			r.mismatch("backup:error", fmt.Sprintf("BackupShard: %v", berr), i)
 			return
 		}
 		full := r.gate.Bytes()
 		ents, trailer := c18kit.Layout(full)
 		got, want := c18UnitsOf(r.src, ents), c18ModelUnits(st.Units)
 		if !trailer {
-			r.mismatch("backup:"+r.cls+":no-trailer", "BackupShard returned nil but the stream has no end-of-archive marker", i)
+			r.mismatch("backup:no-trailer", "BackupShard returned nil but the stream has no end-of-archive marker", i)
 			return
 		}
-		if !c18Same(got, want) {
-			// the set of files a (time-bounded) backup contains is part of its documented meaning
-			kind := "full"
-			if st.Since > 0 {
-				kind = "since"
-			}
-			r.mismatch("backup:"+kind+":entries", fmt.Sprintf("stream holds %v, model %v (since=%d, files %+v)", got, want, st.Since, st.Files), i)
+		entriesDiffer := !c18Same(got, want)
+		if entriesDiffer && st.Since > 0 && !r.layoutOff {
+			// which files a time-bounded backup contains is its documented meaning ("modified later than since")
+			r.mismatch("backup:since:entries", fmt.Sprintf("stream holds %v, model %v (since=%d, files %+v)", got, want, st.Since, st.Files), i)
 			return
+		}
+		if entriesDiffer {
+			// a full backup with another file layout than the model's: not what the property speaks about; the copy's
+			// content is judged after the restore (a modelled cut cannot be placed, though)
+			vtrace.Mismatch("note:backup-entries", fmt.Sprintf("behaviour %d step %d: stream holds %v, model %v", r.bi, i, got, want), r.replayObj(i, "note:backup-entries"))
+			if s.A == "ConnCut" {
+				r.failed = true
+				return
+			}
 		}
 		if !r.checkSource(i, false) {
 			return
@@ -391,15 +401,15 @@ func (r *c18Run) restore(i int) {
 	if err != nil {
 		r.c.add(func() { r.c.restoresFailed++ })
 		if clean {
-			r.mismatch("restore:"+tail+":clean-failed:"+r.cls, fmt.Sprintf("restore of a complete backup failed: %v", err), i)
+			r.mismatch("restore:"+tail+":clean-failed", fmt.Sprintf("restore of a complete backup failed: %v", err), i)
 			return
 		}
 		if rerr != nil {
-			r.mismatch("restore:"+tail+":failed-unreadable:"+r.cls, fmt.Sprintf("after the failed restore (%v) the destination cannot be read: %v", err, rerr), i)
+			r.mismatch("restore:"+tail+":failed-unreadable", fmt.Sprintf("after the failed restore (%v) the destination cannot be read: %v", err, rerr), i)
 			return
 		}
 		if !after.Equal(before) {
-			r.mismatch("restore:"+tail+":failed-but-changed:"+r.cls, fmt.Sprintf("restore failed (%v) but the destination changed from %s to %s", err, before, after), i)
+			r.mismatch("restore:"+tail+":failed-but-changed", fmt.Sprintf("restore failed (%v) but the destination changed from %s to %s", err, before, after), i)
 			return
 		}
 		r.c.add(func() { r.c.held++ })
@@ -407,7 +417,7 @@ func (r *c18Run) restore(i int) {
 	}
 	r.c.add(func() { r.c.restoresOK++ })
 	if rerr != nil {
-		r.mismatch("restore:"+tail+":unreadable:"+r.cls, fmt.Sprintf("restore succeeded but the destination cannot be read: %v", rerr), i)
+		r.mismatch("restore:"+tail+":unreadable", fmt.Sprintf("restore succeeded but the destination cannot be read: %v", rerr), i)
 		return
 	}
 	if !st.ChainOK {
@@ -417,18 +427,18 @@ func (r *c18Run) restore(i int) {
 	r.c.add(func() { r.c.judged++ })
 	if in, _ := c18kit.InWindow(after, st.Window); !in {
 		dc, detail := c18kit.DiffClass(after, st.Window, !clean, r.inflight, r.tombShip)
-		r.mismatch("restore:"+tail+":"+dc+":"+r.cls, detail+fmt.Sprintf("; stream %d bytes, wire %s, sent %d of %v", len(r.stream), st.Wire, st.Sent, c18ModelUnits(st.Units)), i)
+		r.mismatch("restore:"+tail+":"+dc, detail+fmt.Sprintf("; stream %d bytes, wire %s, sent %d of %v", len(r.stream), st.Wire, st.Sent, c18ModelUnits(st.Units)), i)
 		return
 	}
 	// the restored content survives a restart of the destination
 	if err := r.dst.Reopen(); err != nil {
-		r.mismatch("restore:"+tail+":reopen-error:"+r.cls, fmt.Sprintf("destination does not reopen: %v", err), i)
+		r.mismatch("restore:"+tail+":reopen-error", fmt.Sprintf("destination does not reopen: %v", err), i)
 		return
 	}
 	r.c.add(func() { r.c.reopens++ })
 	again, err := r.dst.Read(c18Shard)
 	if err != nil || !again.Equal(after) {
-		r.mismatch("restore:"+tail+":reopen-differs:"+r.cls, fmt.Sprintf("destination reads %s after the restore and %s (err %v) after a restart", after, again, err), i)
+		r.mismatch("restore:"+tail+":reopen-differs", fmt.Sprintf("destination reads %s after the restore and %s (err %v) after a restart", after, again, err), i)
 		return
 	}
 	r.c.add(func() { r.c.held++ })
@@ -473,6 +483,18 @@ func (r *c18Run) run() {
 	// never leave a backup goroutine standing in the gate
 	if r.bkDone != nil {
 		r.finishBackup(len(r.b)-1, true)
+	}
+	// "the source shard is unchanged by being backed up" also holds for what is on disk: restart the source
+	if last := len(r.b) - 1; last >= 0 && !r.failed && !r.stopped && r.b[last].St.HasShard {
+		if err := r.src.Reopen(); err != nil {
+			r.mismatch("source-changed:reopen-error", fmt.Sprintf("the source does not reopen after the scenario: %v", err), last)
+		} else if got, err := r.src.Read(c18Shard); err != nil {
+			r.mismatch("source-changed:reopen-unreadable", err.Error(), last)
+		} else if want := c18kit.ModelContent(r.b[last].St.Src); !got.Equal(want) {
+			r.mismatch("source-changed:reopen", fmt.Sprintf("after a restart the source reads %s, model %s", got, want), last)
+		} else {
+			r.c.add(func() { r.c.srcReopens++ })
+		}
 	}
 	r.c.add(func() { r.c.behaviours++ })
 }
@@ -541,7 +563,7 @@ func TestVerifBackupReplay(t *testing.T) {
 	vtrace.Done("TestVerifBackupReplay", map[string]interface{}{
 		"behaviours": c.behaviours, "steps": c.steps, "backups": c.backups, "restores": c.restores, "restores_ok": c.restoresOK,
 		"restores_failed": c.restoresFailed, "judged": c.judged, "not_judged": c.notJudged, "held": c.held,
-		"race_writes": c.raceWrites, "cuts": c.cuts, "reopens": c.reopens, "classes": c.classes, "signatures": c.sigs,
+		"race_writes": c.raceWrites, "cuts": c.cuts, "reopens": c.reopens, "source_reopens": c.srcReopens, "classes": c.classes, "signatures": c.sigs,
 	})
 	if len(c.sigs) > 0 {
 		t.Errorf("mismatches: %v", c.sigs)
@@ -693,6 +715,7 @@ func c18RaceRound(index string, variant, nWrites int) (sig, detail string, k int
 		wdone <- nil
 	}()
 	<-started
+	src.Wake(c18Shard)
 	lo := atomic.LoadInt64(&acked) // acknowledged before the backup started
 	var buf bytes.Buffer
 	berr := src.Store.BackupShard(c18Shard, time.Time{}, &buf)
